@@ -148,9 +148,10 @@ pub fn obj_neg(o: &Rc<Object>) -> (r: Object) requires is_number_spec(**o) { uni
 pub fn hmap_new(p: PairsMap) -> (r: HMap) { unimplemented!() }
 #[verifier::external_body] pub struct PairsMap { _p: () }
 // VM::build_map: copies stack[start..end] pairwise into a HashMap; rejects invalid keys with an error at `line`
+// (this contract, and those of vm_exec_index_expr / vm_exec_dollar_expr below, are DISCHARGED on the real bodies by the vmindex unit)
 #[verifier::external_body]
 pub fn vm_build_map(vm: &VM, start: usize, end: usize, line: usize) -> (r: Result<PairsMap, RTError>)
-    requires start <= end <= vm.sp, vm_wf(vm)
+    requires start <= end <= vm.sp, vm_wf(vm), (end - start) % 2 == 0   // compiler: Map's operand is twice the number of pairs
     ensures r matches Err(e) ==> e.line == line
 { unimplemented!() }
 #[verifier::external_body]
